@@ -1,9 +1,9 @@
 #!/bin/bash
-# usage: tools/run_all.sh [tier]  -- run every claimed check (2 at a time), print exit codes
+# usage: tools/run_all.sh [tier]  -- run every claimed check (VERIF_PARALLEL at a time, default 2; C12 and C10 peak near 40 GB, use 1 when unsure), print exit codes
 tier=${1:-quick}
 cd "$(dirname "$0")/.."
 ids=$(python3 -c "import json; print(' '.join(c['property_id'] for c in json.load(open('MANIFEST.json'))['checks']))")
 mkdir -p /tmp/runall
 run() { ./check $1 --tier $tier > /tmp/runall/$1.log 2>&1; echo "$1 exit=$? $(tail -1 /tmp/runall/$1.log | grep -oE 'wall [0-9]+s')"; }
 export -f run; export tier
-printf "%s\n" $ids | xargs -P 2 -I{} bash -c 'run {}'
+printf "%s\n" $ids | xargs -P ${VERIF_PARALLEL:-2} -I{} bash -c 'run {}'
